@@ -1,8 +1,9 @@
-SPECIFICATION MatSpec
+SPECIFICATION SampleSpec
 CONSTANTS
   N = 32767
   GenMax <- G16_Max
   GenShapes <- GS_Shapes
+  SampleK = 40
   GenVals <- GS_Vals
 INVARIANT EmitMat
 CHECK_DEADLOCK FALSE
